@@ -120,7 +120,8 @@ impl<'a, R: BufRead> Asc2DltMsgIterator<'a, R> {
 
     fn timestamp_dms_from(&self, timestamp_us: i64) -> u32 {
         if timestamp_us >= 0 {
-            self.timestamp_offset_dms + ((timestamp_us / 100) as u32)
+            self.timestamp_offset_dms
+                .saturating_add((timestamp_us / 100) as u32)
         } else if self.timestamp_offset_dms > 0 {
             self.timestamp_offset_dms
                 .saturating_sub((-timestamp_us / 100) as u32)
@@ -304,7 +305,9 @@ where
                             standard_header: DltStandardHeader {
                                 htyp: self.htyp,
                                 mcnt: (index & 0xff) as u8,
-                                len: self.len_wo_payload + (payload.len() as u16),
+                                len: self
+                                    .len_wo_payload
+                                    .saturating_add(payload.len().min(u16::MAX as usize) as u16), // lines can be longer than a dlt msg
                             },
                             extended_header: Some(DltExtendedHeader {
                                 verb_mstp_mtin: (2u8 << 1) | (2u8 << 4), // NwTrace CAN, non verb.
@@ -395,7 +398,9 @@ where
                             standard_header: DltStandardHeader {
                                 htyp: self.htyp,
                                 mcnt: (index & 0xff) as u8,
-                                len: self.len_wo_payload + (payload.len() as u16),
+                                len: self
+                                    .len_wo_payload
+                                    .saturating_add(payload.len().min(u16::MAX as usize) as u16), // lines can be longer than a dlt msg
                             },
                             extended_header: Some(DltExtendedHeader {
                                 verb_mstp_mtin: (2u8 << 1) | (2u8 << 4), // NwTrace CAN, non verb.
@@ -444,7 +449,9 @@ where
                             standard_header: DltStandardHeader {
                                 htyp: self.htyp,
                                 mcnt: (index & 0xff) as u8,
-                                len: self.len_wo_payload + (payload.len() as u16),
+                                len: self
+                                    .len_wo_payload
+                                    .saturating_add(payload.len().min(u16::MAX as usize) as u16), // lines can be longer than a dlt msg
                             },
                             extended_header: Some(DltExtendedHeader {
                                 verb_mstp_mtin: (2u8 << 1) | (2u8 << 4), // NwTrace CAN, non verb.
@@ -526,7 +533,9 @@ where
                                         standard_header: DltStandardHeader {
                                             htyp: self.htyp,
                                             mcnt: (index & 0xff) as u8,
-                                            len: self.len_wo_payload + (payload.len() as u16),
+                                            len: self.len_wo_payload.saturating_add(
+                                                payload.len().min(u16::MAX as usize) as u16,
+                                            ), // lines can be longer than a dlt msg
                                         },
                                         extended_header: Some(DltExtendedHeader {
                                             verb_mstp_mtin: (3u8 << 1) | (2u8 << 4), // Control Resp., non verb
